@@ -663,6 +663,13 @@ Definition C05_ok (q : oreq) (ds : list oview) (o : oobs) : bool :=
 Definition C05_call_needs_datagram (reported : bool) (accepted : Z) : bool :=
   if reported then 1 <=? accepted else true.
 
+(* a call with several clients (MeasureClockOffsetSCION, one path each) combines the
+   measurements of the clients that accepted a datagram: what it reports lies between the
+   smallest and the largest of them - in particular it is one of them if only one client
+   succeeded, and never the zero value of a client that did not *)
+Definition C05_call_offset_within (off : Z) (accepted : list Z) : bool :=
+  existsb (fun a => a <=? off) accepted && existsb (fun b => off <=? b) accepted.
+
 (* the oracle's own history: after an exchange that reported an error the basis
    of the last successful measurement stays what it was; after a success it is
    the receive timestamp field of the delivered datagram(s) that meet the
